@@ -33,7 +33,7 @@ var (
 	durationType        = reflect.TypeOf(time.Duration(0))
 	cacheKeys           = make(map[string][]string)
 	cacheKeysLock       sync.Mutex
-	defaultCache        = make(map[string]any)
+	defaultCache        = make(map[defaultCacheKey]any)
 	defaultCacheLock    sync.Mutex
 	emptyMap            = map[string]any{}
 	emptyValue          = reflect.ValueOf(lang.Placeholder)
@@ -55,6 +55,13 @@ type (
 		fromString   bool
 		opaqueKeys   bool
 		canonicalKey func(key string) string
+	}
+
+	// the same default text stands for different elements depending on how it is read:
+	// cut into segments for string elements, parsed as JSON for the other kinds
+	defaultCacheKey struct {
+		segments bool
+		value    string
 	}
 )
 
@@ -271,8 +278,9 @@ func (u *Unmarshaler) fillSliceWithDefault(derefedType reflect.Type, value refle
 	defaultValue, fullName string) error {
 	baseFieldType := Deref(derefedType.Elem())
 	baseFieldKind := baseFieldType.Kind()
+	cacheKey := defaultCacheKey{segments: baseFieldKind == reflect.String, value: defaultValue}
 	defaultCacheLock.Lock()
-	slice, ok := defaultCache[defaultValue]
+	slice, ok := defaultCache[cacheKey]
 	defaultCacheLock.Unlock()
 	if !ok {
 		if baseFieldKind == reflect.String {
@@ -282,7 +290,7 @@ func (u *Unmarshaler) fillSliceWithDefault(derefedType reflect.Type, value refle
 		}
 
 		defaultCacheLock.Lock()
-		defaultCache[defaultValue] = slice
+		defaultCache[cacheKey] = slice
 		defaultCacheLock.Unlock()
 	}
 
